@@ -35,9 +35,12 @@ func init() {
 
 // ---- the Go types behind the registries ----------------------------------------------------------
 
-// enumZero lists one zero value of every enumeration Go type of the library (cross-checked against the
-// live dump: a type missing here is a harness error, so that a new enumeration cannot go untested).
-var enumZero = []any{
+// The Go types behind the registries are FOUND BY REFLECTION over the library's message types
+// (discoverTypes, registry_pin.go). staticTypes only supplements that walk with the types no message structure
+// of the library uses yet (they would otherwise be exercised through the tag-level functions only). Neither is
+// a reference: a type the library registers and the harness cannot reach is counted (`types.unreached:<name>`),
+// not reported as a violation; what must exist is said by the pin (`pinned-type` oracle).
+var staticTypes = []any{
 	kmip.ResultStatus(0), kmip.ResultReason(0), kmip.CredentialType(0), kmip.RevocationReasonCode(0),
 	kmip.BatchErrorContinuationOption(0), kmip.NameType(0), kmip.ObjectType(0), kmip.OpaqueDataType(0),
 	kmip.State(0), kmip.CryptographicAlgorithm(0), kmip.BlockCipherMode(0), kmip.PaddingMethod(0),
@@ -50,47 +53,73 @@ var enumZero = []any{
 	kmip.DRBGAlgorithm(0), kmip.FIPS186Variation(0), kmip.ProfileName(0), kmip.ValidationAuthorityType(0),
 	kmip.ValidationType(0), kmip.UnwrapMode(0), kmip.DestroyAction(0), kmip.ShreddingAlgorithm(0),
 	kmip.RNGMode(0), kmip.ClientRegistrationMethod(0), kmip.MaskGenerator(0), kmip.KeyWrapType(0),
-	kmip.Operation(0),
+	kmip.Operation(0), kmip.CryptographicUsageMask(0), kmip.StorageStatusMask(0),
 }
 
-var maskZero = []any{kmip.CryptographicUsageMask(0), kmip.StorageStatusMask(0)}
-
 type regEnv struct {
-	dump     ttlv.VerifRegistry
-	enumType map[int]reflect.Type // enum tag -> Go type
-	maskType map[int]reflect.Type
-	tagNames map[int]string
+	dump      ttlv.VerifRegistry
+	live      *liveTables
+	pin       *regPin                 // nil when it could not be obtained (reported as lost evidence)
+	types     map[string]reflect.Type // reflect.Type.String() -> Go type, for every enum / mask type the harness can reach
+	uses      []typedUse              // (type, element tag) pairs found in the library's own structures
+	usedUnder map[string]map[int]bool // type name -> element tags of `uses`
+	enumType  map[int]reflect.Type    // enum tag (per ttlv.enums) -> Go type
+	maskType  map[int]reflect.Type
+	tagNames  map[int]string
 }
 
 func newRegEnv(ctx *Ctx) *regEnv {
-	e := &regEnv{dump: ttlv.VerifDumpRegistry(), enumType: map[int]reflect.Type{}, maskType: map[int]reflect.Type{}, tagNames: map[int]string{}}
+	e := &regEnv{dump: ttlv.VerifDumpRegistry(), enumType: map[int]reflect.Type{}, maskType: map[int]reflect.Type{}, tagNames: map[int]string{}, usedUnder: map[string]map[int]bool{}}
+	e.live = indexDump(e.dump)
 	for _, t := range e.dump.Tags {
 		e.tagNames[int(t.Value)] = t.Name
 	}
-	known := map[string]bool{}
-	for _, z := range enumZero {
+	var problems []string
+	e.types, e.uses, problems = discoverTypes()
+	for _, p := range problems {
+		ctx.Res.Count("types.field-tag-problem:" + p)
+	}
+	ctx.Res.Count(fmt.Sprintf("types.discovered=%d", len(e.types)))
+	for _, z := range staticTypes {
 		ty := reflect.TypeOf(z)
-		known[ty.String()] = true
-		if tag, ok := ttlv.VerifTagForType(ty); ok && ttlv.VerifIsEnum(ty) {
-			e.enumType[tag] = ty
+		if _, ok := e.types[ty.String()]; !ok {
+			e.types[ty.String()] = ty
+			ctx.Res.Count("types.static-only:" + ty.String())
+		}
+	}
+	for _, u := range e.uses {
+		if e.usedUnder[u.ty.String()] == nil {
+			e.usedUnder[u.ty.String()] = map[int]bool{}
+		}
+		e.usedUnder[u.ty.String()][u.elem] = true
+	}
+	// tag -> Go type through ttlv.enums / ttlv.bitmasks (NOT through tagByType: the two are compared by oracleTypes)
+	reached := 0
+	for _, t := range e.dump.EnumTypes {
+		if ty, ok := e.types[t.Name]; ok && ttlv.VerifIsEnum(ty) {
+			reached++
+			if _, dup := e.enumType[int(t.Value)]; !dup {
+				e.enumType[int(t.Value)] = ty
+			}
 		} else {
-			ctx.Res.Fail("harness list enumZero: " + ty.String() + " is not a registered enumeration type")
+			ctx.Res.Count("types.unreached:" + t.Name)
 		}
 	}
-	for _, z := range maskZero {
-		ty := reflect.TypeOf(z)
-		known[ty.String()] = true
-		if tag, ok := ttlv.VerifTagForType(ty); ok && ttlv.VerifIsBitmask(ty) {
-			e.maskType[tag] = ty
+	for _, t := range e.dump.BitmaskTypes {
+		if ty, ok := e.types[t.Name]; ok && ttlv.VerifIsBitmask(ty) {
+			reached++
+			if _, dup := e.maskType[int(t.Value)]; !dup {
+				e.maskType[int(t.Value)] = ty
+			}
 		} else {
-			ctx.Res.Fail("harness list maskZero: " + ty.String() + " is not a registered bit-mask type")
+			ctx.Res.Count("types.unreached:" + t.Name)
 		}
 	}
-	for _, t := range append(append([]ttlv.VerifNamed{}, e.dump.EnumTypes...), e.dump.BitmaskTypes...) {
-		if !known[t.Name] {
-			ctx.Res.Fail("the library registers the type " + t.Name + " which the harness lists (enumZero/maskZero) do not cover: add it")
-		}
+	ctx.Res.Count(fmt.Sprintf("types.reached=%d/%d", reached, len(e.dump.EnumTypes)+len(e.dump.BitmaskTypes)))
+	if all := len(e.dump.EnumTypes) + len(e.dump.BitmaskTypes); all == 0 || reached*2 < all {
+		ctx.Res.Fail(fmt.Sprintf("lost evidence: the harness reaches only %d of the %d enumeration / mask Go types the library registers: the typed conversions (MarshalText / UnmarshalText, typed fields) went unchecked", reached, all))
 	}
+	e.pin = loadPin(ctx)
 	return e
 }
 
@@ -177,6 +206,14 @@ func (e *regEnv) tagName(ctx *Ctx, t int) {
 		s, _ := m["tag"].(string)
 		return "ok " + regHex(s)
 	}), reg, "tagname.json")
+	// text (debug) writer: the name before " ("
+	regCase(ctx, line, guardStr("MarshalText", func() string {
+		name, ok := textTagName(ttlv.MarshalText(ttlv.Value{Tag: t, Value: int32(1)}))
+		if !ok {
+			return "err"
+		}
+		return "ok " + regHex(name)
+	}), reg, "tagname.text")
 	// XML writer: element name, or the tag attribute of <TTLV>
 	xline := fmt.Sprintf("reg.tagxml %d", t)
 	regCase(ctx, xline, guardStr("MarshalXML", func() string {
@@ -253,6 +290,13 @@ func (e *regEnv) enumText(ctx *Ctx, tag int, v uint32) {
 		}
 		return "ok " + regHex(s)
 	}), reg, "enumtext.json")
+	regCase(ctx, line, guardStr("ttlv.MarshalText", func() string {
+		s, ok := writtenValue("text", ttlv.MarshalText(ttlv.Value{Tag: tag, Value: ttlv.Enum(v)}))
+		if !ok {
+			return "err"
+		}
+		return "ok " + regHex(s)
+	}), reg, "enumtext.text")
 	if ty, ok := e.enumType[tag]; ok {
 		regCase(ctx, line, guardStr("MarshalText", func() string {
 			rv := reflect.New(ty).Elem()
@@ -338,6 +382,13 @@ func (e *regEnv) maskText(ctx *Ctx, tag int, sep string, v uint32) {
 			}
 			return "ok " + regHex(string(b))
 		}), v != 0, "masktext.marshaltext")
+		regCase(ctx, line, guardStr("ttlv.MarshalText", func() string {
+			s, ok := writtenValue("text", ttlv.MarshalText(val()))
+			if !ok {
+				return "err"
+			}
+			return "ok " + regHex(s)
+		}), v != 0, "masktext.text")
 	case " ":
 		regCase(ctx, line, guardStr("MarshalXML", func() string {
 			_, attrs, err := xmlRoot(ttlv.MarshalXML(val()))
@@ -404,17 +455,7 @@ func (e *regEnv) violate(ctx *Ctx, prop, oracle, key, detail, line string) {
 
 // oracleTags: name -> number -> name and number -> name -> number are identities through the public functions.
 func (e *regEnv) oracleTags(ctx *Ctx) {
-	readTag := func(name string) (int, bool) {
-		var v ttlv.Value
-		if err := ttlv.UnmarshalJSON([]byte(`{"tag": `+jsonString(name)+`, "type": "Integer", "value": 1}`), &v); err != nil {
-			return 0, false
-		}
-		var w ttlv.Value
-		if err := ttlv.UnmarshalXML([]byte(`<TTLV tag="`+xmlAttrEscape(name)+`" type="Integer" value="1"/>`), &w); err != nil || w.Tag != v.Tag {
-			return 0, false
-		}
-		return v.Tag, true
-	}
+	readTag := readTagName
 	check := func(name string, num int, table string) {
 		line := fmt.Sprintf("reg.tagname %d", num)
 		ctx.Res.Count("oracle.tag")
@@ -468,6 +509,12 @@ func (e *regEnv) enumRoundTrip(ctx *Ctx, tag int, v uint32, wantName string) {
 		}
 		if wantName != "" && !bytes.Contains(doc, []byte(`"`+wantName+`"`)) {
 			e.violate(ctx, "C17", "enum-written-by-name", fmt.Sprintf("enum:%s:%s:%s:not-by-name", enc, tn, wantName), fmt.Sprintf("%s does not write %s value 0x%08X by its name %q: %s", enc, tn, v, wantName, doc), line)
+		}
+	}
+	if wantName != "" {
+		doc := ttlv.MarshalText(ttlv.Value{Tag: tag, Value: ttlv.Enum(v)})
+		if got, _ := writtenValue("text", doc); got != wantName {
+			e.violate(ctx, "C17", "enum-written-by-name", fmt.Sprintf("enum:textwriter:%s:%s:not-by-name", tn, wantName), fmt.Sprintf("the text writer does not write %s value 0x%08X by its name %q: %s", tn, v, wantName, doc), line)
 		}
 	}
 	if ty, ok := e.enumType[tag]; ok {
@@ -620,6 +667,50 @@ var (
 	vecNumRe  = regexp.MustCompile(`^(0x[0-9A-Fa-f]+|-?[0-9]+)$`)
 )
 
+// Floors under which the OASIS vectors are not the evidence they are claimed to be (410 files, 171 tag names,
+// 157 enumeration value names, 10 flag names at the time of writing): below them the engine FAILS LOUDLY
+// ("lost evidence") instead of passing with `files=0`.
+const (
+	minVecFiles     = 200
+	minVecTagNames  = 80
+	minVecEnumNames = 80
+	minVecFlagNames = 5
+)
+
+// enumScopes: the enumerations whose names may appear as value of an element with tag `elem`: the enumeration
+// of that tag if it has a table, else the enumerations of the Go types the LIBRARY ITSELF carries under that
+// element tag (found by reflection: MaskGeneratorHashingAlgorithm carries a kmip.HashingAlgorithm) — no alias
+// table to keep up to date.
+func (e *regEnv) enumScopes(elem int) []int {
+	if _, ok := e.live.enums[elem]; ok {
+		return []int{elem}
+	}
+	set := map[int]bool{}
+	for _, u := range e.uses {
+		if u.elem == elem {
+			if t, ok := e.live.enumTypes[u.ty.String()]; ok {
+				set[t] = true
+			}
+		}
+	}
+	return sortedInts(set)
+}
+
+func (e *regEnv) maskScopes(elem int) []int {
+	if _, ok := e.live.masks[elem]; ok {
+		return []int{elem}
+	}
+	set := map[int]bool{}
+	for _, u := range e.uses {
+		if u.elem == elem {
+			if t, ok := e.live.maskTypes[u.ty.String()]; ok {
+				set[t] = true
+			}
+		}
+	}
+	return sortedInts(set)
+}
+
 // oracleVectors: every tag name, enumeration value name and mask flag name used by the OASIS XML vectors
 // shipped with the library must be known to the library (in the scope of the right enumeration).
 func (e *regEnv) oracleVectors(ctx *Ctx) {
@@ -642,18 +733,15 @@ func (e *regEnv) oracleVectors(ctx *Ctx) {
 		}
 		return v.Tag, true
 	}
-	enumTags := map[int]bool{}
-	for _, en := range e.dump.Enums {
-		enumTags[en.Tag] = true
-	}
-	// elements whose values belong to the enumeration of another tag (KMIP 1.4 §2.1.7)
-	alias := map[string]string{"MaskGeneratorHashingAlgorithm": "HashingAlgorithm"}
 	done := map[string]bool{}
+	tagNames, enumNames, flagNames := map[string]bool{}, map[string]bool{}, map[string]bool{}
+	read := 0
 	for _, f := range files {
 		src, err := os.ReadFile(f)
 		if err != nil {
 			continue
 		}
+		read++
 		attrName := ""
 		for _, m := range vecElemRe.FindAllStringSubmatch(string(src), -1) {
 			name := m[1]
@@ -671,9 +759,6 @@ func (e *regEnv) oracleVectors(ctx *Ctx) {
 			if name == "AttributeValue" {
 				scopeName = attrName
 			}
-			if a, ok := alias[scopeName]; ok {
-				scopeName = a
-			}
 			val := attrs["value"]
 			key := name + "|" + scopeName + "|" + attrs["type"] + "|" + val
 			if attrs["type"] != "Enumeration" && attrs["type"] != "Integer" {
@@ -689,6 +774,7 @@ func (e *regEnv) oracleVectors(ctx *Ctx) {
 				e.violate(ctx, "C17", "vectors", "vectors:tag:"+name, fmt.Sprintf("element <%s> of %s is not a tag name known to the library", name, filepath.Base(f)), "reg.tagnum "+regHex(name))
 				continue
 			}
+			tagNames[name] = true
 			scope := tag
 			if scopeName != name {
 				if scope, ok = tagOf(scopeName); !ok {
@@ -700,29 +786,54 @@ func (e *regEnv) oracleVectors(ctx *Ctx) {
 				if vecNumRe.MatchString(val) {
 					continue
 				}
-				if !enumTags[scope] {
+				scopes := e.enumScopes(scope)
+				if len(scopes) == 0 {
 					ctx.Res.Count("oracle.vectors.enum-not-registered:" + scopeName)
 					continue
 				}
-				if _, err := ttlv.EnumByName(scope, val); err != nil {
-					e.violate(ctx, "C17", "vectors", "vectors:enum:"+scopeName+"."+val, fmt.Sprintf("%s uses <%s type=\"Enumeration\" value=%q>: the library has no such name in %s", filepath.Base(f), name, val, scopeName), fmt.Sprintf("reg.enumbyname %d %s", scope, regHex(val)))
+				found := false
+				for _, sc := range scopes {
+					if _, err := ttlv.EnumByName(sc, val); err == nil {
+						found = true
+					}
+				}
+				if !found {
+					e.violate(ctx, "C17", "vectors", "vectors:enum:"+scopeName+"."+val, fmt.Sprintf("%s uses <%s type=\"Enumeration\" value=%q>: the library has no such name in %s", filepath.Base(f), name, val, ttlv.TagString(scopes[0])), fmt.Sprintf("reg.enumbyname %d %s", scopes[0], regHex(val)))
+				} else {
+					enumNames[ttlv.TagString(scopes[0])+"."+val] = true
 				}
 			case "Integer":
-				if _, isMask := e.maskType[scope]; !isMask {
+				scopes := e.maskScopes(scope)
+				if len(scopes) == 0 {
 					continue
 				}
 				for _, part := range strings.Fields(val) {
 					if vecNumRe.MatchString(part) {
 						continue
 					}
-					if _, err := ttlv.BitmaskByStr(scope, part); err != nil {
-						e.violate(ctx, "C17", "vectors", "vectors:mask:"+scopeName+"."+part, fmt.Sprintf("%s uses flag %q of %s unknown to the library", filepath.Base(f), part, scopeName), fmt.Sprintf("reg.maskbyname %d %s", scope, regHex(part)))
+					found := false
+					for _, sc := range scopes {
+						if _, err := ttlv.BitmaskByStr(sc, part); err == nil {
+							found = true
+						}
+					}
+					if !found {
+						e.violate(ctx, "C17", "vectors", "vectors:mask:"+scopeName+"."+part, fmt.Sprintf("%s uses flag %q of %s unknown to the library", filepath.Base(f), part, scopeName), fmt.Sprintf("reg.maskbyname %d %s", scopes[0], regHex(part)))
+					} else {
+						flagNames[part] = true
 					}
 				}
 			}
 		}
 	}
-	ctx.Res.Count(fmt.Sprintf("oracle.vectors.files=%d", len(files)))
+	ctx.Res.Count(fmt.Sprintf("oracle.vectors.files=%d", read))
+	ctx.Res.Count(fmt.Sprintf("oracle.vectors.tagnames=%d", len(tagNames)))
+	ctx.Res.Count(fmt.Sprintf("oracle.vectors.enumnames=%d", len(enumNames)))
+	ctx.Res.Count(fmt.Sprintf("oracle.vectors.flagnames=%d", len(flagNames)))
+	if read < minVecFiles || len(tagNames) < minVecTagNames || len(enumNames) < minVecEnumNames || len(flagNames) < minVecFlagNames {
+		ctx.Res.Fail(fmt.Sprintf("lost evidence: the OASIS vectors under %s gave %d readable XML files, %d distinct tag names, %d enumeration value names, %d flag names (floors: %d / %d / %d / %d): the third-party naming evidence of C17 was not collected (moved test data, wrong VERIF_REPO?)",
+			dir, read, len(tagNames), len(enumNames), len(flagNames), minVecFiles, minVecTagNames, minVecEnumNames, minVecFlagNames))
+	}
 }
 
 // ---- generators ----------------------------------------------------------------------------------------------
@@ -777,10 +888,7 @@ func runRegistry(ctx *Ctx) {
 	r := ctx.R
 
 	// --- oracle (exhaustive over the registry) ---
-	e.oracleTags(ctx)
-	e.oracleEnums(ctx)
-	e.oracleMasks(ctx)
-	e.oracleVectors(ctx)
+	e.oracles(ctx)
 
 	// --- tags ---
 	var tagVals []int64
@@ -921,7 +1029,156 @@ func runRegistry(ctx *Ctx) {
 			e.maskRead(ctx, "unmarshal", tag, s)
 		}
 	}
+	e.genTyped(ctx)
 	ctx.Res.Exhaustive = true // over the registry itself; the unregistered part is sampled
+}
+
+// oracles: the registry-wide impl-side oracles (cheap: they also run on replay, so that what they find replays).
+func (e *regEnv) oracles(ctx *Ctx) {
+	e.oracleTags(ctx)
+	e.oracleEnums(ctx)
+	e.oracleMasks(ctx)
+	e.oracleTypes(ctx)
+	e.oraclePin(ctx)
+	e.oracleAttributes(ctx)
+	e.oracleVectors(ctx)
+}
+
+// genTyped: every enumeration type x {its own tag, AttributeValue, every element tag under which the library's
+// structures carry it, ANOTHER enumeration's tag (whose names must not leak in), a mask tag, an unregistered
+// tag} x {every registered value, edges, random} through the three writers and the two readers; the same for
+// the two mask types.
+func (e *regEnv) genTyped(ctx *Ctx) {
+	r := ctx.R
+	var withTable []int
+	for _, en := range e.dump.Enums {
+		if len(en.ByValue) > 0 {
+			withTable = append(withTable, en.Tag)
+		}
+	}
+	maskTag := 0
+	if len(e.dump.Bitmasks) > 0 {
+		maskTag = e.dump.Bitmasks[0].Tag
+	}
+	elemsFor := func(tyName string, own int, extra ...int) []int {
+		set := map[int]bool{own: true, kmip.TagAttributeValue: true, 0x540001: true}
+		for el := range e.usedUnder[tyName] {
+			set[el] = true
+		}
+		for _, x := range extra {
+			if x != 0 {
+				set[x] = true
+			}
+		}
+		return sortedInts(set)
+	}
+	for _, t := range e.dump.EnumTypes {
+		own := int(t.Value)
+		if _, ok := e.types[t.Name]; !ok {
+			continue
+		}
+		foreign := 0
+		for _, x := range withTable { // the next enumeration that has a table (cyclically)
+			if x > own {
+				foreign = x
+				break
+			}
+		}
+		if foreign == 0 && len(withTable) > 0 && withTable[0] != own {
+			foreign = withTable[0]
+		}
+		elems := elemsFor(t.Name, own, foreign, maskTag)
+		var vals []uint32
+		var names []string
+		for _, en := range e.dump.Enums {
+			if en.Tag == own {
+				for _, x := range en.ByValue {
+					vals = append(vals, uint32(x.Value))
+				}
+				for _, x := range en.ByName {
+					names = append(names, x.Name)
+				}
+			}
+		}
+		top := uint32(0)
+		for _, v := range vals {
+			if v > top {
+				top = v
+			}
+		}
+		vals = append(vals, 0, top+1, 0x80000001, 0xFFFFFFFF)
+		for i := 0; i < ctx.N(1, 20); i++ {
+			vals = append(vals, uint32(r.U64()))
+		}
+		texts := append([]string{"", "1", "0x1", "0x00000001", "0X1", "4294967296", "Foo"}, names...)
+		if len(names) > 0 {
+			texts = append(texts, strings.ToLower(names[0]), " "+names[0], names[0]+" ")
+		}
+		for _, en := range e.dump.Enums { // names of the foreign enumeration: not names of this type
+			if en.Tag == foreign {
+				for i, x := range en.ByName {
+					if i < 3 || ctx.Thor {
+						texts = append(texts, x.Name)
+					}
+				}
+			}
+		}
+		for _, elem := range elems {
+			for _, v := range vals {
+				e.typedEnum(ctx, t.Name, elem, v)
+			}
+			for _, s := range texts {
+				e.typedParse(ctx, t.Name, elem, s)
+			}
+		}
+	}
+	for _, t := range e.dump.BitmaskTypes {
+		own := int(t.Value)
+		if _, ok := e.types[t.Name]; !ok {
+			continue
+		}
+		other, anEnum := 0, 0
+		for _, m := range e.dump.Bitmasks {
+			if m.Tag != own {
+				other = m.Tag
+			}
+		}
+		if len(withTable) > 0 {
+			anEnum = withTable[0]
+		}
+		elems := elemsFor(t.Name, own, other, anEnum)
+		names := e.live.masks[own]
+		vals := []uint32{0, 3, 5, 0xFFFFFFFF, 0x80000001, 0x7FFFFFFF}
+		for i := 0; i < 32; i++ {
+			vals = append(vals, uint32(1)<<uint(i))
+		}
+		if n := len(names); n > 0 && n < 32 {
+			vals = append(vals, uint32(1)<<uint(n)-1)
+		}
+		for i := 0; i < ctx.N(20, 1000); i++ {
+			v := uint32(r.U64())
+			if n := len(names); i%2 == 0 && n > 0 && n < 32 {
+				v &= uint32(1)<<uint(n) - 1
+			}
+			vals = append(vals, v)
+		}
+		texts := []string{"", "1", "0x1", "3", "0x80000000", "Foo", "Sign Verify", "Sign|Verify", "Sign | Verify", "OnLineStorage", "OnLineStorage ArchivalStorage"}
+		for i, n := range names {
+			texts = append(texts, n)
+			if i+1 < len(names) {
+				texts = append(texts, n+" "+names[i+1], n+"|"+names[i+1])
+			}
+		}
+		texts = append(texts, e.live.masks[other]...)
+		for _, elem := range elems {
+			for _, v := range vals {
+				e.typedMask(ctx, t.Name, elem, v)
+			}
+			for _, s := range texts {
+				e.typedMaskParse(ctx, t.Name, elem, s)
+			}
+		}
+	}
 }
 
 // replay evaluates exactly the given protocol lines.
@@ -983,6 +1240,30 @@ func (e *regEnv) replay(ctx *Ctx) {
 				}
 				e.maskRoundTrip(ctx, int(t), uint32(v), n)
 			}
+		case "reg.typedenum", "reg.typedparse", "reg.typedmask", "reg.typedmaskxml", "reg.typedmaskjson":
+			ty, ok1 := txt(1)
+			el, ok2 := num(2)
+			if !ok1 || !ok2 {
+				continue
+			}
+			switch f[0] {
+			case "reg.typedenum":
+				if v, ok := num(3); ok {
+					e.typedEnum(ctx, ty, int(el), uint32(v))
+				}
+			case "reg.typedparse":
+				if s, ok := txt(3); ok {
+					e.typedParse(ctx, ty, int(el), s)
+				}
+			case "reg.typedmask":
+				if v, ok := num(4); ok {
+					e.typedMask(ctx, ty, int(el), uint32(v))
+				}
+			default:
+				if s, ok := txt(3); ok {
+					e.typedMaskParse(ctx, ty, int(el), s)
+				}
+			}
 		case "reg.maskbyname", "reg.maskxml", "reg.maskjson", "reg.maskunmarshal":
 			t, ok1 := num(1)
 			s, ok2 := txt(2)
@@ -995,8 +1276,5 @@ func (e *regEnv) replay(ctx *Ctx) {
 		}
 	}
 	// the registry-wide oracles are cheap: run them on replay too, so that a violation found by them replays
-	e.oracleTags(ctx)
-	e.oracleEnums(ctx)
-	e.oracleMasks(ctx)
-	e.oracleVectors(ctx)
+	e.oracles(ctx)
 }
